@@ -244,10 +244,10 @@ class Tilt:
             _assert_numerical_iterable(self.mag, 'Geomagnetic field vector')
             # Estimate heading angle
             m = self.mag/np.linalg.norm(self.mag, axis=1)[:, None]
-            my2 = m[:, 2]*np.sin(self.angles[:, 0]) - m[:, 1]*np.cos(self.angles[:, 0])
+            by = m[:, 1]*np.cos(self.angles[:, 0]) - m[:, 2]*np.sin(self.angles[:, 0])
             mz2 = m[:, 1]*np.sin(self.angles[:, 0]) + m[:, 2]*np.cos(self.angles[:, 0])
             mx3 = m[:, 0]*np.cos(self.angles[:, 1]) + mz2*np.sin(self.angles[:, 1])
-            self.angles[:, 2] = np.arctan2(my2, mx3)
+            self.angles[:, 2] = np.arctan2(-by, mx3)    # Same expression as estimate(): identical sign of zero
         # Return angles in radians
         if self.representation == 'angles':
             return self.angles
